@@ -33,6 +33,27 @@ pub enum CrystalExpr {
   },
 }
 
+impl CrystalExpr {
+  /// Check that every expression can be evaluated: it may only use the
+  /// variables `l` (wavelength in microns) and `T` (temperature difference from 20C)
+  /// and known functions
+  pub fn validate(&self) -> Result<(), SPDCError> {
+    let mut ctx = meval::Context::new();
+    ctx.var("T", 0.);
+    let exprs = match self {
+      CrystalExpr::Uniaxial { no, ne } => vec![no, ne],
+      CrystalExpr::Biaxial { nx, ny, nz } => vec![nx, ny, nz],
+    };
+    for expr in exprs {
+      expr
+        .clone()
+        .bind_with_context(ctx.clone(), "l")
+        .map_err(|e| SPDCError(format!("Invalid crystal expression: {}", e)))?;
+    }
+    Ok(())
+  }
+}
+
 /// The type of crystal
 #[derive(Debug, Clone, PartialEq, Serialize, Deserialize)]
 #[allow(non_camel_case_types)]
@@ -136,10 +157,19 @@ impl CrystalType {
         if !s.trim().starts_with("{") {
           s = format!("{{{}}}", s);
         }
-        Ok(CrystalType::Expr(
-          deser_hjson::from_str(&s).map_err(|e| SPDCError(e.to_string()))?,
-        ))
+        let expr: CrystalExpr = deser_hjson::from_str(&s).map_err(|e| SPDCError(e.to_string()))?;
+        expr.validate()?;
+        Ok(CrystalType::Expr(expr))
       }
+    }
+  }
+
+  /// Check that the refractive indices of this crystal can be evaluated
+  /// (only crystals given by expressions can fail)
+  pub fn validate(&self) -> Result<(), SPDCError> {
+    match self {
+      CrystalType::Expr(expr) => expr.validate(),
+      _ => Ok(()),
     }
   }
 
